@@ -17,7 +17,9 @@ PROP_FILE = 'props/C11.v'
 PARTS = ['a', 'x + y', '= b', '\\leq c', '+ d', 'e.', '= f,', 'g \\text{ for } h',
          '\\alpha_i', '\\quad z', 'k \\nonumber', 'm \\label{l}', '= n. \\nonumber',
          '\\mbox{if } p', 'q;\\,', '\\frac{r}{s}:', 't.\\quad\\quad', 'u,\\,\\,', 'v;~\\ ',
-         'w: \\; \\;', 'n!', '(n+1)!', 'q?', '= m!']
+         'w: \\; \\;', 'n!', '(n+1)!', 'q?', '= m!',
+         # a blank-only \text / \mbox is a spacer, no text part
+         '\\text{ } = i', '\\mbox{ } + j', 'b \\text{ } c']
 
 
 def equ_envs():
@@ -151,7 +153,7 @@ def _run_own(tier, seed, build, res):
         # leading operator of a non-first section becomes the word
         for r_, row in enumerate(shape):
             for s_, i in enumerate(row):
-                part = PARTS[i]
+                part = re.sub(r'^\\(?:text|mbox)\{ +\}\s*', '', PARTS[i])
                 if s_ > 0 and part and (part[0] in '=+' or part.startswith('\\leq')):
                     op = part.split()[0]
                     word = lc.math_op_text.get(op, lc.math_op_text[None])
@@ -164,6 +166,7 @@ def _run_own(tier, seed, build, res):
                      sample_rule=lambda c, im: len(meta[(c.latex, c.lang) if (c.latex, c.lang) in meta else (c.latex, c.lang, c.seqs)][0]) > 1)
     switch_stream(rng, res)
     text_parts_stream(rng, res)
+    default_args_stream(res)
     known_names_stream(res)
 
 
@@ -198,6 +201,49 @@ def text_parts_stream(rng, res):
                             % (ch, pos[k + i], c.latex[pos[k + i] - 1]))
         return None
     universe.run(cases, res, 'text-parts', project, oracle)
+
+
+def default_args_stream(res):
+    """a user macro with a default argument, called without it inside \\text /
+    \\mbox of several equations and in the text between them: the text of each
+    call maps inside the equation (the \\text argument) that holds the call"""
+    cases = []
+    meta = {}
+    pre = '\\newcommand{\\cond}[1][forx]{#1 }\\newcommand{\\cnd}[2][ifx]{#1 #2}\n'
+    for env in ('equation', 'align', '\\['):
+        for call in ('\\cond', '\\cond{}', '\\cnd{z}'):
+            def eq(k):
+                body = ' a_%d &= b \\text{ %s } c. ' % (k, call)
+                return '\\[' + body + '\\]' if env == '\\[' else \
+                    '\\begin{%s}' % env + body + '\\end{%s}' % env
+            tex = pre + 'Start '
+            spans = []
+            for k in range(3):
+                e = eq(k)
+                spans.append((len(tex), len(tex) + len(e)))
+                tex += e + ' mid %s %d ' % (call, k)
+            tex += 'end.\n'
+            for pack in ('*', 'amsmath'):
+                cases.append((parsecase.T2T(tex, lang='en', pack=pack, files={}), None, 'defaults'))
+            meta[tex] = spans
+
+    def oracle(c, d, kind, im):
+        if im[0] != 'OK':
+            return None
+        txt, pos = im[1][1], im[1][2]
+        w = 'ifx' if '\\cnd' in c.latex[80:] else 'forx'
+        ks = [m.start() for m in re.finditer(w, txt)]
+        if len(ks) != 6:
+            return 'the default text %r appears %d times, 6 calls: %r' % (w, len(ks), txt)
+        for n, k in enumerate(ks):
+            if n % 2 == 0:
+                a, b = meta[c.latex][n // 2]
+                for i in range(len(w)):
+                    if not (a < pos[k + i] <= b):
+                        return ('default text of the call in equation %d maps to %d, the '
+                                'equation spans %d..%d' % (n // 2, pos[k + i], a + 1, b))
+        return None
+    universe.run(cases, res, 'defaults', project, oracle)
 
 
 def switch_stream(rng, res):
